@@ -303,9 +303,11 @@ def cbmc_query(qid, params, ctx):
     res["stats"]["properties_checked"] = len(results)
     viol, notes, unw = classify(results)
     res["std_ub_notes"] = sorted({"%s: %s" % (p.split(".")[0], d[:100]) for p, d in notes})
-    if unw:
+    if unw and not viol:
         res.update(status=ERROR, detail="unwinding assertion failed (bound too small): %s" % unw[:3])
         return res
+    if unw:
+        res["unwinding_note"] = "an unwinding assertion also failed (%s); the reported assertion failure is a real path within the bound" % (unw[0],)
     if viol:
         prop, desc, trace = viol[0]
         res["status"] = VIOLATED
